@@ -449,3 +449,73 @@ def horosphere_artists(tier, rng, rep):
             rep.case(key=(t, model), nontrivial=bool(at_inf.any()) and not bool(at_inf.all()), sample=inp if (t, model) == (1, "halfspace") else None)
             if len(rep.failures) >= 3:
                 return
+
+
+@bounded(P, "arcs_across_the_branch_cut", functions=[D + "HyperbolicDrawing.draw_geodesic", D + "HyperbolicDrawing.draw_polygon", D + "HyperbolicDrawing.get_circle_arcpath", "geometry_tools/utils/core.py:short_arc",
+                                                      "geometry_tools/utils/core.py:right_to_left", "geometry_tools/utils/core.py:circle_angles"],
+         note="segments whose endpoint angles, seen from the centre of their circle, straddle the +-pi branch cut of arctan2 in either order (chords crossing a ray from the origin, given "
+              "top-to-bottom and bottom-to-top, in all four quadrant rotations), and clockwise / counter-clockwise triangles built on them: every sampled point of the drawn arc / path is on the segment")
+def arcs_across_the_branch_cut(tier, rng, rep):
+    import matplotlib
+    matplotlib.use("Agg")
+    import matplotlib.pyplot as plt
+    from matplotlib.patches import Arc, PathPatch
+    from geometry_tools import hyperbolic as h, drawtools
+    N = 200 if tier == 'thorough' else 50
+    rep.rule = "Poincare disk and half-plane; chord through (x, +-y) rotated by 0, 90, 180, 270 degrees and by a random angle; x in [0.3, 0.9], y in [0.05, 0.4]; both endpoint orders; triangles with a third vertex near the origin in both orientations"
+    rep.bound = f"{N} chords x 2 orders x 2 models"
+    fig, ax = plt.subplots(figsize=(3, 3))
+    try:
+        drs = {m: drawtools.HyperbolicDrawing(model=m, fig=fig, ax=ax) for m in ("poincare", "halfspace")}
+        for t in range(N):
+            x, y1, y2 = rng.uniform(0.3, 0.9), rng.uniform(0.05, 0.4), rng.uniform(0.05, 0.4)
+            while x * x + max(y1, y2) ** 2 >= 0.98:
+                x *= 0.9
+            phi = [0.0, np.pi / 2, np.pi, 3 * np.pi / 2, float(rng.uniform(0, 2 * np.pi))][t % 5]
+            Rm = np.array([[np.cos(phi), -np.sin(phi)], [np.sin(phi), np.cos(phi)]])
+            top, bot = Rm @ np.array([x, y1]), Rm @ np.array([x, -y2])
+            for order in ("top_to_bottom", "bottom_to_top"):
+                ka, kb = (top, bot) if order == "top_to_bottom" else (bot, top)
+                for model, dr in drs.items():
+                    inp = {"model": model, "klein_a": ka.tolist(), "klein_b": kb.tolist(), "order": order}
+                    a_, b_ = spec.from_klein(ka, model), spec.from_klein(kb, model)
+
+                    def body():
+                        npat = len(ax.patches)
+                        dr.draw_geodesic(h.Segment(h.Point(ka.copy(), model="klein"), h.Point(kb.copy(), model="klein")))
+                        new = ax.patches[npat:]
+                        if len(new) != 1:
+                            rep.fail("one_artist_added", f"{len(new)}", inp); return
+                        art = new[0]
+                        if isinstance(art, Arc):
+                            c = np.array(art.center); r = art.width / 2
+                            t1, t2 = np.deg2rad(art.theta1), np.deg2rad(art.theta2)
+                            if t2 < t1:
+                                t2 += 2 * np.pi
+                            for s in np.linspace(0, 1, 9):
+                                q = c + r * np.array([np.cos(t1 + s * (t2 - t1)), np.sin(t1 + s * (t2 - t1))])
+                                if not _on_segment(model, q, a_, b_, tol=1e-4):
+                                    rep.fail("arc_angular_extent", f"the drawn arc (centre {c.tolist()}, radius {r}, {art.theta1:.2f}..{art.theta2:.2f} degrees) leaves the segment at parameter {s:.3f}", inp); return
+                        # a triangle on this chord, third vertex near the origin, in this orientation
+                        kc = -0.1 * (ka + kb)
+                        npat = len(ax.patches)
+                        dr.draw_polygon(h.Polygon(h.Point(np.array([ka, kb, kc]), model="klein")))
+                        pp = [p_ for p_ in ax.patches[npat:] if isinstance(p_, PathPatch)]
+                        if len(pp) != 1:
+                            rep.fail("polygon_artist_is_a_path", f"{len(pp)}", inp); return
+                        vm = [a_, b_, spec.from_klein(kc, model)]
+                        for poly_ in pp[0].get_path().to_polygons(closed_only=False):
+                            for q in poly_:
+                                # (the flattened Bezier approximation of an arc is coarse: a few chords per arc)
+                                if not any(_on_segment(model, q, vm[i], vm[(i + 1) % 3], tol=5e-2) for i in range(3)) and _inside(model, q):
+                                    rep.fail("path_points_on_edges", f"polygon path point {q.tolist()} lies on no edge", inp); return
+                                if not _inside(model, q, eps=-1e-6):
+                                    rep.fail("path_points_on_edges", f"polygon path point {q.tolist()} lies outside the model", inp); return
+                        for p_ in ax.patches[:]:
+                            p_.remove()
+                    rep.attempt("drawing_runs", inp, body)
+                    rep.case(key=(t, order, model), nontrivial=True, sample=inp if (t, order, model) == (0, "top_to_bottom", "poincare") else None)
+                    if len(rep.failures) >= 3:
+                        return
+    finally:
+        plt.close(fig)
